@@ -205,13 +205,138 @@ def hash_eq(ctx, rep, clause):
            f.loc(), clause)
 
 
+def symmetric_positions(ctx, rep, clause):
+    """__eq__ walks the residue modifications of BOTH operands: every loop that compares per-position lists either
+    iterates over something built from both operands' position sets, or there are loops from each side, or the two key
+    sets / sizes are compared outright.  A walk over self's positions alone accepts an `other` that carries a
+    modification where self has none (and a == b differs from b == a)."""
+    from ..canon import Canon, params_of
+    f = ctx.program.func(f'{PFA}.__eq__')
+    c = Canon(f.node)
+    ps = params_of(f.node)
+    if len(ps) < 2:
+        raise AnalysisError(f'{f.fq}: no second operand')
+    me, you = ps[0], ps[1]
+
+    def roots(e) -> Set[str]:
+        return {x.id for x in ast.walk(c.resolve(e)) if isinstance(x, ast.Name)} & {me, you}
+
+    loops = []
+    for n in walk_own(f.node):
+        if isinstance(n, (ast.For, ast.comprehension)):
+            body = n.body if isinstance(n, ast.For) else []
+            cmp_calls = [x for s_ in body for x in ast.walk(s_) if isinstance(x, ast.Call) and
+                         norm_stmt(x.func).endswith('are_mods_equal')]
+            if cmp_calls:
+                loops.append((n, roots(n.iter)))
+    # a comprehension consumed by all(...) : the element compares
+    for n in walk_own(f.node):
+        if isinstance(n, (ast.GeneratorExp, ast.ListComp)) and any(
+                isinstance(x, ast.Call) and norm_stmt(x.func).endswith('are_mods_equal') for x in ast.walk(n.elt)):
+            r = set()
+            for g in n.generators:
+                r |= roots(g.iter)
+            loops.append((n, r))
+    whole = False
+    for n in walk_own(f.node):
+        # keys / sizes / whole dictionaries of both sides compared directly
+        if isinstance(n, ast.Compare) and len(n.ops) == 1 and isinstance(n.ops[0], (ast.Eq, ast.NotEq)):
+            a, b = c.resolve(n.left), c.resolve(n.comparators[0])
+            ta, tb = norm_stmt(a), norm_stmt(b)
+            if 'internal_mods' in ta and 'internal_mods' in tb and roots(n.left) | roots(n.comparators[0]) == {me, you} \
+                    and roots(n.left) != roots(n.comparators[0]):
+                whole = True
+    if not loops and not whole:
+        raise AnalysisError(f'{f.fq}: no per-position comparison of residue modifications found (form not read)')
+    covered = set()
+    for _, r in loops:
+        covered |= r
+    ok = whole or covered == {me, you}
+    ob(rep, 'SIB-symmetric', f.fq, '__eq__ walks the modified positions of both operands',
+       ok, f'{len(loops)} per-position loops, sides covered {sorted(covered)}, key sets compared outright: {whole}',
+       f'the per-position comparison iterates over {sorted(covered)} only: a modification present in the other operand at '
+       f'a position this one does not have is never looked at, so different annotations compare equal (and a == b != b == a)',
+       f.loc(), clause)
+
+
+_BOUND_WITNESS = """
+def add(self, intervals):
+    for iv in intervals:
+        if not 0 <= iv.start <= iv.end < len(self.sequence):
+            raise ValueError(iv)
+"""
+
+
+def _rejections(fnode):
+    """(test, polarity) pairs: the exception is raised when `test` has truth value `polarity`"""
+    from ..guards import dominating_tests
+    for n in walk_own(fnode):
+        if isinstance(n, ast.Raise):
+            for t, pol in dominating_tests(fnode, n):
+                yield n, t, pol
+        elif isinstance(n, ast.Assert):
+            yield n, n.test, False
+
+
+def _rejects_full_length(test, pol):
+    """does the validation fire for an interval the parser itself produces -- one that ends with the last residue
+    (half-open end == len(sequence))?  Decided on the guard's syntax with .start/.end/len() replaced by the values of
+    such intervals; None when the guard does not speak about interval bounds or cannot be decided"""
+    from ..guards import GuardEval, UNK, text
+    ends = [x for x in ast.walk(test) if isinstance(x, ast.Attribute) and x.attr == 'end']
+    lens = [x for x in ast.walk(test) if isinstance(x, ast.Call) and isinstance(x.func, ast.Name) and x.func.id == 'len']
+    if not ends or not lens:
+        return None
+    starts = [x for x in ast.walk(test) if isinstance(x, ast.Attribute) and x.attr == 'start']
+    for st_, en_, ln_ in ((0, 3, 3), (1, 3, 3), (2, 3, 3), (0, 1, 1)):
+        env = {text(x): en_ for x in ends}
+        env.update({text(x): st_ for x in starts})
+        env.update({text(x): ln_ for x in lens})
+        v = GuardEval(env).eval(test)
+        if v is UNK:
+            return None
+        if bool(v) == pol:
+            return (st_, en_, ln_)
+    return False
+
+
+def interval_bound_validation(ctx, rep, clause):
+    """no validation on the way of add_intervals / the intervals setter rejects an interval that the parser produces:
+    interval ends are half-open, `(PEPTIDE)[x]` is (0, 7) on a sequence of length 7"""
+    probe = ast.parse(_BOUND_WITNESS).body[0]
+    hits = [r for _, t, pol in _rejections(probe) if (r := _rejects_full_length(t, pol))]
+    if not hits:
+        raise AnalysisError('interval bound rule: the built-in off-by-one witness is no longer recognised')
+    n = 0
+    cls = ctx.program.cls(PFA)
+    funcs = list(cls.methods.values()) + [f for f in ctx.program.all_functions()
+                                           if f.fq.startswith(DC + ':') or f.fq.startswith(PP + ':')]
+    seen = set()
+    for f in funcs:
+        if f.fq in seen:
+            continue
+        seen.add(f.fq)
+        for node, t, pol in _rejections(f.node):
+            r = _rejects_full_length(t, pol)
+            if r is None:
+                continue
+            n += 1
+            ob(rep, 'KIND', f.fq, 'a bound check on intervals accepts an interval that ends with the last residue',
+               r is False, 'half-open end <= len(sequence)',
+               f'`{norm_stmt(t)[:100]}` raises for start={r[0] if r else ""}, end={r[1] if r else ""} on a sequence of '
+               f'length {r[2] if r else ""}: the interval the parser builds for a group closing at the last residue is '
+               f'refused, so adding a peptide\'s own modification dictionary back raises', f.loc(node), clause)
+    rep.note(f'interval bound validations read: {n} (built-in witness recognised)')
+
+
 def copies(ctx, rep, clause):
     an, program = ctx.analyzer, ctx.program
     cls = program.cls(PFA)
     for meth in ('copy', 'dict', 'mod_dict'):
         m = cls.methods[meth]
         s = an.summaries.get((m.fq, ()))
-        alias = [o for o in s.ret if o[0] in ('P', 'I')] + [o for o in s.ret_inner_known if o[0] in ('P', 'I')]
+        alias = [o for o in s.ret if o[0] in ('P', 'I')] + [o for o in s.ret_inner_known if o[0] in ('P', 'I')] + \
+            [o for o in s.ret_inner if o[0] in ('P', 'I')]      # a mutable part of self one level further down
         ob(rep, 'EFF-result-aliasing', m.fq, f'{meth}() shares nothing with self', not alias and 0 not in s.mutates,
            'fresh deep copy', f'result aliases self ({alias}) or self is written', m.loc(), clause)
     for name, setter in sorted(cls.setters.items()):
@@ -364,5 +489,7 @@ def check(ctx, rep):
     copies(ctx, rep, 'C20d')
     empty_vs_absent(ctx, rep, 'C20b')
     no_truncating_zip(ctx, rep, 'C20c')
+    symmetric_positions(ctx, rep, 'C20c')
+    interval_bound_validation(ctx, rep, 'C20a')
     from . import C01 as _c01
     _c01.index_kinds(ctx, rep, 'C20a')
